@@ -1,6 +1,6 @@
 SPECIFICATION Spec
 CONSTANTS Table = "c06"
-          N = 72
+          N = 100
           Sizes = {}
           Doubles = FALSE
           PoolMode = "full"
